@@ -2,6 +2,7 @@
 //! re-executes one recorded case without any explorer.
 
 mod c01;
+mod c02;
 mod c03;
 mod c04;
 mod c05;
@@ -46,6 +47,7 @@ fn main() {
         }
         match id {
             "C01" => c01::replay(r),
+            "C02" => c02::replay(r),
             "C03" => c03::replay(r),
             "C04" => c04::replay(r),
             "C05" => c05::replay(r),
@@ -74,6 +76,7 @@ fn main() {
     let tier = Tier::from_args(Some(args[2].as_str()));
     let code = match id {
         "C01" => c01::run(tier),
+        "C02" => c02::run(tier),
         "C03" => c03::run(tier),
         "C04" => c04::run(tier),
         "C05" => c05::run(tier),
